@@ -119,10 +119,26 @@ def gen_pairs(rng, good, bad, allow_dup, str_only=False, pbad=0.12, nmax=5):
     return ps
 
 
-def gen_source(rng, good, bad, pbad=0.12):
+def gen_source(rng, good, bad, pbad=0.12, foreign=None):
     kind = rng.choice(["map", "map", "pairs", "fd", None])
     if kind is None:
         return None
+    if foreign and rng.random() < 0.12:
+        # an instance of ANOTHER fixeddict type as the source: its own entries were checked against its own
+        # declaration, not against the receiving type's
+        idx, names, shared = foreign
+        pool_good = [n for n in names if n in shared]
+        pool_bad = [n for n in names if n not in shared]
+        ps, used = [], set()
+        for _ in range(rng.randrange(0, 4)):
+            pool = pool_bad if (pool_bad and (not pool_good or rng.random() < 0.5)) else pool_good
+            if not pool:
+                break
+            k = rng.choice(pool)
+            if k not in used:
+                used.add(k)
+                ps.append((k, gen_value(rng)))
+        return ("map:fdx:%d" % idx, ps)
     if kind == "map" and rng.random() < 0.45:
         # mappings that are not dict subclasses (or are dict subclasses with their own machinery): the operators
         # dispatch differently on them (reflected methods, NotImplemented fall-backs)
@@ -140,7 +156,11 @@ def gen_history(rng, cls, classes):
         good = names
     bad = undeclared_keys(rng, cls, classes)
     pinit = rng.choice([0.0, 0.0, 0.0, 0.15])
-    init = (gen_source(rng, good, bad, pinit), gen_pairs(rng, good, bad, False, True, pinit))
+    oi = rng.randrange(len(classes))
+    foreign = None
+    if classes[oi] is not cls and len(classes[oi].entry_objs) > 0:
+        foreign = (oi, list(classes[oi].entry_objs), set(cls.entry_objs))
+    init = (gen_source(rng, good, bad, pinit, foreign=foreign), gen_pairs(rng, good, bad, False, True, pinit))
     ops = []
     for _ in range(rng.randrange(4, 26)):
         r = rng.random()
@@ -151,9 +171,9 @@ def gen_history(rng, cls, classes):
         elif r < 0.29:
             ops.append(("setdefault", k, v))
         elif r < 0.47:
-            ops.append(("update", gen_source(rng, good, bad), gen_pairs(rng, good, bad, False, True) if rng.random() < 0.5 else []))
+            ops.append(("update", gen_source(rng, good, bad, foreign=foreign), gen_pairs(rng, good, bad, False, True) if rng.random() < 0.5 else []))
         elif r < 0.65:
-            src = gen_source(rng, good, bad)
+            src = gen_source(rng, good, bad, foreign=foreign)
             ops.append(("ior", src if src is not None else ("map", [])))
         elif r < 0.71:
             ops.append(("copy",))
@@ -260,6 +280,9 @@ def build_source(cls, s):
             dd = collections.defaultdict(int)
             dd.update(m)
             return dd
+        if kind.startswith("map:fdx:"):
+            other = impl()[0][int(kind.split(":")[2])]
+            return other(m)
         return _KeysOnlyMapping(m)
     if kind == "fd":
         return cls(dict(ps))
